@@ -547,6 +547,12 @@ class lb_render:
     self_shape = LB
     params = dict(size=Tup(Int, Int), focus=Bool)
     result = CCANVAS
+    # "rendering a ListBox never raises".
+    # FAILS-ON-TREE: raises/ListBoxError@urwid/widget/listbox.py:708 for focus=False and a focus widget whose rows depend
+    # on `focus`: calculate_visible lists the focus widget with rows((maxcol,), True), render draws it with focus=focus and
+    # compares.  Replayed: a flow widget with rows = 2 if focus else 1,
+    #   ListBox(SimpleListWalker([W(), Text("b")])).render((5, 3), focus=False)
+    #   -> ListBoxError: Focus Widget <W selectable flow widget> at position 0 within listbox calculated 2 rows but rendered 1!
     raises = ()
     modifies = ("_rendered_size",)
 
@@ -570,6 +576,106 @@ class lb_render:
         yield "canvas-is-the-box", both(result.ncols == a.size[0], result.nrows == a.size[1])
         yield "size-remembered", both(s._rendered_size[0] == a.size[0], s._rendered_size[1] == a.size[1])
         yield "moves-no-focus", walker_focus(s, "exit")[1] == walker_focus(old, "entry")[1]
+        # the widgets' render calls logged on this path (those of the two loops belong to the arbitrary iteration, whose
+        # own obligation is the rows check in the loop body): the focus widget is drawn once, with the focus flag asked
+        from pyvc.protocol import calls_on
+
+        drawn = calls_on(cur(), None, "render")
+        fw = focus_widget(old, "entry")
+        yield "focus-widget-drawn-once-with-the-focus-asked", both(len(drawn) == 1, *[both(eq(ev[1], fw), eq(ev[3]["focus"], a.focus), V.struct_eq(ev[3]["size"], (a.size[0],))) for ev in drawn])
+
+
+# ------------------------------------------------------------------------------------------------ the empty list
+
+def is_empty(s):
+    return mk_bool(walker_focus(s)[0].isnone)
+
+
+@contract(LBX + "ListBox.calculate_visible", property="C07", replayable=False, alias="empty")
+class lb_calculate_visible_empty:
+    """A walker without a focus (the empty list): (None, None, None), nothing looked at."""
+
+    self_shape = LB
+    params = dict(size=Tup(Int, Int), focus=Bool)
+    result = Tup(Const(None), Const(None), Const(None))
+    raises = ()
+    modifies = ()
+
+    def requires(s, a):
+        return both(no_change_pending(s), is_empty(s))
+
+    def ensures(old, s, a, result):
+        yield "three-nones", both(len(result) == 3, result[0] is None, result[1] is None, result[2] is None)
+
+
+_CV = LBX + "ListBox.calculate_visible"
+
+
+@contract(LBX + "ListBox.render", property="C07", replayable=False, alias="empty", contract_overrides={_CV: lb_calculate_visible_empty})
+class lb_render_empty:
+    """The empty list renders as a blank canvas of the size asked (for any size, 0 rows included)."""
+
+    self_shape = LB
+    params = dict(size=Tup(Int, Int), focus=Bool)
+    raises = ()
+    modifies = ("_rendered_size",)
+
+    def requires(s, a):
+        return both(no_change_pending(s), is_empty(s), a.size[0] >= 0, a.size[1] >= 0)
+
+    def ensures(old, s, a, result):
+        yield "blank-canvas-of-the-size-asked", both(result.ncols == a.size[0], result.nrows == a.size[1], mk_bool(result.cursor.isnone))
+        yield "size-remembered", both(s._rendered_size[0] == a.size[0], s._rendered_size[1] == a.size[1])
+
+
+# ------------------------------------------------------------------------------------------------ engine model check
+
+
+def _namedtuple_model_check():
+    """pyvc.builtins_model.namedtuple_new against CPython, on the NamedTuple classes of listbox.py and a class with
+    defaults: same tuple / same TypeError for positional, keyword, mixed, missing, surplus, repeated, unknown arguments."""
+    import itertools
+    import typing
+
+    from pyvc.builtins_model import is_namedtuple_class, namedtuple_new
+    from pyvc.engine import PyRaise
+
+    class WithDefaults(typing.NamedTuple):
+        a: int
+        b: int = 7
+        c: typing.Any = None
+
+    classes = [_lbmod.VisibleInfoMiddle, _lbmod.VisibleInfoFillItem, _lbmod.VisibleInfoTopBottom, _lbmod.VisibleInfo, WithDefaults]
+    n = bad = 0
+    detail = ""
+    for cls in classes:
+        if not is_namedtuple_class(cls):
+            return ("namedtuple-model-agrees-with-cpython", False, f"{cls.__name__} not recognised")
+        fields = cls._fields
+        names = list(fields) + ["zz"]
+        for npos in range(len(fields) + 2):
+            for kws in itertools.chain.from_iterable(itertools.combinations(names, r) for r in range(min(len(names), 3) + 1)):
+                args = list(range(10, 10 + npos))
+                kwargs = {k: 100 + i for i, k in enumerate(kws)}
+                try:
+                    want = ("ok", tuple(cls(*args, **kwargs)))
+                except TypeError:
+                    want = ("TypeError",)
+                try:
+                    r = namedtuple_new(cls, args, kwargs)
+                    got = ("ok", tuple(r))
+                    if any(getattr(cls(*args, **kwargs), f) != r[i] for i, f in enumerate(fields)):
+                        got = ("field-order",)
+                except PyRaise as e:
+                    got = (e.exc.cls.__name__,)
+                n += 1
+                if got != want:
+                    bad += 1
+                    detail = detail or f"{cls.__name__}(*{args}, **{kwargs}): CPython {want}, model {got}"
+    return ("namedtuple-model-agrees-with-cpython", bad == 0, detail or f"{n} constructor calls compared")
+
+
+lb_calculate_visible.static_checks = [_namedtuple_model_check]
 
 
 @lemma("chain-rows-non-negative", property="C07")
